@@ -35,6 +35,15 @@ CHECKS.update({
             "§3-C03", "bounded restatement of 'eventually' (same execution, after apply/clear drained); relay-supplied chunks with holes are exercised by C01's workload"),
 })
 
+CHECKS.update({
+    "C02": (True, "exploration", "set-model monitor over the real BookedVersions/gap table (layer 1) and over a real node's generate_sync vs the harness's delivery record and vs BookedVersions::from_conn (layer 2), after every step",
+            "Runtime monitor in two layers. Layer 1 drives snapshot/insert_db/commit|rollback/reload sequences on the real bookkeeping code with the real migrations and compares in-memory needed, persisted gap rows (disjoint, non-adjacent, inside 1..head), head and contains_version with a set model after every step (small scope enumerated). Layer 2 feeds a real node through process_multiple_changes with real origins' chunks (complete, partial in any order, re-chunked, duplicated, omitted, empties) plus buffered applies and clears, and after every call checks that the advertised state splits 1..head exactly into held / needed / partial-with-exact-missing-ranges according to what was delivered, and equals the state rebuilt from the database.",
+            "§3-C02", "stale buffered rows of a version meanwhile stored completely are tolerated while their clear request is still pending in the harness (the agent removes them asynchronously); failing storing transactions are covered by layer 1 rollbacks and C06 crash images"),
+    "C05": (True, "exploration", "per-class expectation computed from a direct read of the server's tables, compared with what the real handle_need / serve_sync send (in-process and scripted QUIC client)",
+            "Runtime monitor: a real node is driven into mixed states (live, overwritten, cleared, partially buffered, fully buffered unapplied, gaps); seeded full and partial needs within its advertised heads are answered by the real handle_need in-process and by the real serve_sync over QUIC to a scripted client; every answered version is judged by class: live => chunks tile 0..=highest live seq and carry exactly the live rows, no live changes => declared empty, buffered => exactly the buffered ranges/rows, gap => silence, and every change lies inside its changeset's range.",
+            "§3-C05", "requests within the advertised heads; known finding F15 (duplicate seq) recorded"),
+})
+
 NOT_YET = {
 }
 
